@@ -116,6 +116,23 @@ def run_sweep(ctx, offsets):
     m.close()
 
 
+def run_big(ctx):
+    pkg, cases = corpus.big_package()
+    m = rt.prepare_model(ctx, "bigvals", pkg, ["plain"])
+    if m is None:
+        raise Inconclusive("big-value model did not build")
+    c = m.codec
+    py, cpp = rt.PyEndpoint(m), rt.CppEndpoint(m, "plain")
+    for pname, t, v in cases:
+        proto = pkg.find(pname)
+        vals = [0xCAFE, v, [v], "tail-ü"]
+        data = c.encode_stream(proto, m.schema(pname), vals)
+        for a, b in ((py, cpp), (cpp, py)):
+            chain(ctx, m, proto, vals, "bin", [(a, "bin"), (b, "bin")], "big value %s" % pname, {"big": pname})
+        ctx.case(("big", pname))
+    m.close()
+
+
 def run(ctx):
     common.build_yardl()
     quick = ctx.tier == "quick"
@@ -136,6 +153,7 @@ def run(ctx):
     pmap(work, keys, workers=8)
     pmap(lambda key: run_py_modes(ctx, key + "m", corpus.ser_package(key, depth=3), 4), keys[: (3 if quick else 30)], workers=8)
     run_sweep(ctx, range(-12, 3) if not quick else range(-11, 2))
+    run_big(ctx)
     cxx.prune_cache()
 
 
